@@ -1320,6 +1320,7 @@ func main() {
 	perTree := flag.Int("per-tree", 4, "cases (chunk size, threads, restore schedule) per tree")
 	maxN := flag.Int("maxn", 1500, "largest tree")
 	kmax := flag.Int("kmax", 160, "largest tree evaluated by the Coq model")
+	kwork := flag.Int("kwork", 300000, "bound on chunks x key bytes for a case to be evaluated by the Coq model")
 	kbuild := flag.Int("kbuild", 60, "largest tree the model builds itself by insert (larger ones are rebuilt from the dumped shape)")
 	stackBudget := flag.Int("stack-budget", 1500000, "keys*chunks*depth^2 bound for evaluating the stack port")
 	out := flag.String("out", "", "output directory")
@@ -1407,10 +1408,19 @@ func main() {
 				lit += len(e.k)*len(e.k)*len(e.k) + len(e.v)*len(e.v)*len(e.v)
 			}
 		}
+		work := 0 // chunks x total key bytes: what evaluating the prunings costs
+		if s != nil {
+			for _, e := range s.es {
+				work += len(e.k) + 4
+			}
+			work *= res.nchunks
+		}
 		if s != nil && !res.skipK && nkeys <= *kmax && lit > 40000000 {
 			sum.Count("misc", "K-skipped(long byte strings)")
+		} else if s != nil && !res.skipK && nkeys <= *kmax && work > *kwork {
+			sum.Count("misc", "K-skipped(work budget)")
 		}
-		if s != nil && !res.skipK && nkeys <= *kmax && lit <= 40000000 && len(res.chunkKey) > 0 {
+		if s != nil && !res.skipK && nkeys <= *kmax && lit <= 40000000 && work <= *kwork && len(res.chunkKey) > 0 {
 			src := ""
 			if nkeys <= *kbuild {
 				es := make([]string, len(s.order))
